@@ -221,6 +221,8 @@ def tv(t: Term, known: dict[Term, bool]) -> bool | None:
                 return False
             if other[0] == "fresh" and str(other[2]).rsplit(".", 1)[-1][:1].isupper():
                 return False  # the result of a constructor call (CapWords callee) is an object, never None
+            if known.get(other) is True:
+                return False  # a value already found truthy is not None
     if tag == "bin" and t[1] == "Add":
         # sequence concatenation (or a sum of sizes): non-empty as soon as one operand is, empty only if both are
         va, vb = tv(t[2], known), tv(t[3], known)
@@ -231,6 +233,8 @@ def tv(t: Term, known: dict[Term, bool]) -> bool | None:
         return known.get(t)
     if t in known:
         return known[t]
+    if known.get(("cmp", "is", t, NONE)) is True:
+        return False  # None is falsy
     if tag in ("tuple", "list", "set") and len(t) > 1 and not any(isinstance(x, tuple) and x and x[0] == "star" for x in t[1:]):
         return True
     if tag in ("func", "lambda"):
